@@ -11,6 +11,7 @@ mod offsets;
 mod visit;
 mod decode;
 mod features;
+mod gate;
 mod dwarf;
 mod gen;
 mod opsx;
@@ -59,6 +60,8 @@ fn main() {
         "module" => modsuite::main(seed, &tier, only.as_deref()),
         "maps" => maps::main(seed, &tier, only.as_deref()),
         "features" => features::main(seed, &tier, only.as_deref()),
+        "gate" => gate::main(seed, &tier, only.as_deref()),
+        "gate-deep" => gate::deep(args[2].parse().unwrap()),
         "opsxtest" => {
             let u = opsx::universe(1);
             println!("supported plain ops {} typed {} unsupported {} cases {} untypable {:?}", u.supported_plain, u.typed, u.unsupported, u.cases.len(), u.untypable);
